@@ -33,6 +33,47 @@ def last_op_on_slot(lines, idx, slot):
     return "?"
 
 
+BINOPS = ("meet", "ub", "diff", "concat", "simplify")
+
+
+def taint_cause(lines, idx, slot):
+    """why is the `reduced' flag of `slot` stale at event idx: the operator that left it set
+    (fold / closure), possibly inherited through copies, swaps and binary operators whose argument
+    was already in that state (their omega_reduce() of the argument is then a no-op)."""
+    taint, last = {}, {}
+    for l in lines[: idx + 1]:
+        t = l.split()
+        if t[0] == "op":
+            last[t[1]] = (t[2], t[3] if t[2] in BINOPS and len(t) > 3 else None)
+        elif t[0] == "copy":
+            if t[2] in taint:
+                taint[t[1]] = taint[t[2]]
+            else:
+                taint.pop(t[1], None)
+            last[t[1]] = ("copy", t[2])
+        elif t[0] == "swap":
+            a, b = t[1], t[2]
+            ta, tb = taint.pop(a, None), taint.pop(b, None)
+            if ta: taint[b] = ta
+            if tb: taint[a] = tb
+            last[a], last[b] = last.get(b, ("?", None)), last.get(a, ("?", None))
+        elif t[0] in ("new", "newu", "newe", "okagain"):
+            taint.pop(t[1], None)
+        elif t[0] == "notok":
+            op, arg = last.get(t[1], ("?", None))
+            if op == "fold":
+                taint[t[1]] = "reduced_flag_stale_after_fold"
+            elif op == "closure":
+                taint[t[1]] = "reduced_flag_stale_after_closure"
+            elif arg is not None and arg in taint:
+                taint[t[1]] = taint[arg]
+            elif t[1] in taint:
+                pass
+            else:
+                taint[t[1]] = None
+    return taint.get(slot)
+
+
 def classify(lines, idx, what, dom):
     """site + tags (structural class of the failing case) for known_findings matching"""
     line = lines[idx]
@@ -64,10 +105,9 @@ def classify(lines, idx, what, dom):
         site = "OK()"
         op = last_op_on_slot(lines, idx, t[1])
         tags.append("after_" + op)
-        if op == "fold":
-            tags.append("reduced_flag_stale_after_fold")
-        if op == "closure":
-            tags.append("reduced_flag_stale_after_closure")
+        cause = taint_cause(lines, idx, t[1])
+        if cause:
+            tags.append(cause)
     elif t[0] == "ps":
         site = "state:after:" + last_op_on_slot(lines, idx, t[1])
     elif t[0] == "q":
